@@ -459,8 +459,14 @@ func (w *world) snapshot() map[string]string {
 				return nil
 			}
 			data, _ := os.ReadFile(p)
+			if strings.HasPrefix(rel, "status/") || strings.HasPrefix(rel, "history/") || strings.Contains(rel, "/log/") ||
+				strings.HasPrefix(rel, "drclog/") {
+				// what the property names — status, history, logs — is kept byte for byte
+				m[rel] = "bytes:" + string(data)
+				return nil
+			}
 			h := sha256.Sum256(data)
-			m[rel] = hex.EncodeToString(h[:8]) + fmt.Sprintf("/%d", len(data))
+			m[rel] = hex.EncodeToString(h[:]) + fmt.Sprintf("/%d", len(data))
 			return nil
 		})
 	}
@@ -482,11 +488,29 @@ func (w *world) quiescent() map[string]string {
 	return prev
 }
 
+// firstDiff: where two byte strings differ (for the report).
+func firstDiff(a, b string) string {
+	n := len(a)
+	if len(b) < n {
+		n = len(b)
+	}
+	for i := 0; i < n; i++ {
+		if a[i] != b[i] {
+			return fmt.Sprintf("byte %d of %d/%d", i, len(a), len(b))
+		}
+	}
+	return fmt.Sprintf("length %d -> %d", len(a), len(b))
+}
+
 func diffSnap(a, b map[string]string) []string {
 	var d []string
 	for k, v := range a {
 		if b[k] != v {
-			d = append(d, k)
+			if bv, ok := b[k]; ok && strings.HasPrefix(v, "bytes:") && strings.HasPrefix(bv, "bytes:") {
+				d = append(d, k+" ("+firstDiff(v, bv)+")")
+			} else {
+				d = append(d, k)
+			}
 		}
 	}
 	for k := range b {
@@ -797,6 +821,9 @@ type runner struct {
 	reachCache map[string]string
 	nFail      int
 	pending    map[uint64][]pendingFail
+	known      []map[string]any
+	discarded  int
+	loserDur   []time.Duration
 }
 
 type pendingFail struct {
@@ -824,12 +851,74 @@ func (r *runner) flush(c c12Case, w *world) {
 	delete(r.pending, c.Seed)
 	if trouble != "" {
 		r.res.Count("case-discarded:" + trouble)
-		return
+		r.discarded++
 	}
 	for _, f := range pend {
-		r.nFail++
+		// a machine without ptys explains a run that failed or hung — never two sessions at once, a
+		// loser that wrote or talked, a child with the lock descriptor, or interleaved history
+		if trouble != "" && !hardPreds[fmt.Sprint(f.sig["pred"])] {
+			r.res.Count("failure-discarded:" + fmt.Sprint(f.sig["pred"]))
+			continue
+		}
+		if !r.isKnown(f.sig) {
+			r.nFail++ // only failures that are not listed as known count towards the early stop
+		}
 		r.res.Fail(f.sig, f.what, c)
 	}
+}
+
+var hardPreds = map[string]bool{"overlapping_sessions": true, "loser_wrote_files": true, "loser_talked_to_device": true,
+	"child_inherited_lock_fd": true, "history_interleaved": true, "early_return_talked_to_device": true, "loser_not_immediate": true}
+
+// isKnown: does a known-finding entry for C12 match this signature (same rule as ./check)?
+func (r *runner) isKnown(sig map[string]any) bool {
+	for _, k := range r.known {
+		ok := true
+		for key, want := range k {
+			got, has := sig[key]
+			if !has {
+				ok = false
+				break
+			}
+			if l, isList := want.([]any); isList {
+				in := false
+				for _, x := range l {
+					if fmt.Sprint(x) == fmt.Sprint(got) {
+						in = true
+					}
+				}
+				ok = ok && in
+			} else if fmt.Sprint(want) != fmt.Sprint(got) {
+				ok = false
+			}
+		}
+		if ok {
+			return true
+		}
+	}
+	return false
+}
+
+func loadKnown(verif string) []map[string]any {
+	var out []map[string]any
+	files, _ := filepath.Glob(filepath.Join(verif, "known", "*.jsonl"))
+	files = append(files, filepath.Join(verif, "known_findings.jsonl"))
+	for _, f := range files {
+		data, err := os.ReadFile(f)
+		if err != nil {
+			continue
+		}
+		for _, line := range strings.Split(string(data), "\n") {
+			var e struct {
+				Status, Property string
+				Signature        map[string]any
+			}
+			if json.Unmarshal([]byte(line), &e) == nil && e.Property == "C12" && e.Status == "known" && e.Signature != nil {
+				out = append(out, e.Signature)
+			}
+		}
+	}
+	return out
 }
 
 // envTrouble: did a run of this case fail for want of a resource of the machine (the sandbox runs
@@ -851,8 +940,8 @@ func (w *world) envTrouble() string {
 		switch {
 		case strings.Contains(t, "/dev/ptmx"):
 			return "no-pty-left"
-		case strings.Contains(t, "resource temporarily unavailable"), strings.Contains(t, "cannot allocate memory"),
-			strings.Contains(t, "too many open files"):
+		// (NOT "resource temporarily unavailable": that is EAGAIN, the very error of a contended flock)
+		case strings.Contains(t, "cannot allocate memory"), strings.Contains(t, "too many open files"):
 			return "out-of-resources"
 		}
 	}
@@ -861,6 +950,7 @@ func (w *world) envTrouble() string {
 
 // checkLoser: the oracle for one losing run.
 func (r *runner) checkLoser(c c12Case, w *world, p *proc) {
+	r.checkImmediate(c, w, p)
 	errS := p.stderr.String()
 	if p.exit != 1 || !strings.Contains(errS, "Approve in progress for "+p.v.Arg) {
 		r.fail("loser_wrong_exit_or_message",
@@ -870,6 +960,48 @@ func (r *runner) checkLoser(c c12Case, w *world, p *proc) {
 		if s.id == p.id {
 			r.fail("loser_talked_to_device", fmt.Sprintf("run %d (%s) lost the lock but opened a device session", p.id, p.v), c, nil)
 		}
+	}
+}
+
+// checkImmediate: "fails immediately".  A losing run does nothing but start, read its configuration
+// and try the lock once; it must be over in about the time any invocation of the binary needs on
+// this machine right now.  That time is measured on the spot with `drc -v` (start-up only); a single
+// loser may take 8 times as long plus 250 ms, at least 1 s, at most 3 s; and the MEDIAN loser of a
+// check must be over within 200 ms (see the end of run) — both far below a device session, which
+// on a real device takes seconds to minutes.
+func (r *runner) checkImmediate(c c12Case, w *world, p *proc) {
+	dur := p.end.Sub(p.start)
+	t0 := time.Now()
+	cmd := exec.Command(w.bins["drc"], "-v")
+	cmd.Env = []string{"HOME=" + w.dir}
+	cmd.Run()
+	startup := time.Since(t0)
+	// single run: generous, because this machine runs a hundred other jobs and a run can lose its CPU
+	// for a few hundred ms; the typical loser is judged by the median over the whole check (below)
+	bound := 8*startup + 250*time.Millisecond
+	if bound < time.Second {
+		bound = time.Second
+	}
+	if bound > 3*time.Second {
+		bound = 3 * time.Second
+	}
+	r.mu.Lock()
+	r.loserDur = append(r.loserDur, dur)
+	r.res.Count("loser-timed")
+	switch {
+	case dur < 20*time.Millisecond:
+		r.res.Count("loser-duration:<20ms")
+	case dur < 100*time.Millisecond:
+		r.res.Count("loser-duration:<100ms")
+	case dur < 500*time.Millisecond:
+		r.res.Count("loser-duration:<500ms")
+	default:
+		r.res.Count("loser-duration:>=500ms")
+	}
+	r.mu.Unlock()
+	if dur > bound {
+		r.fail("loser_not_immediate", fmt.Sprintf("run %d (%s) met a held lock and took %d ms to fail (start-up of the binary just now: %d ms, bound %d ms)",
+			p.id, p.v, dur.Milliseconds(), startup.Milliseconds(), bound.Milliseconds()), c, nil)
 	}
 }
 
@@ -934,6 +1066,42 @@ func (w *world) forkWindow(p *proc, d time.Duration) (int, int) {
 		time.Sleep(2 * time.Millisecond)
 	}
 	return 0, 0
+}
+
+// preExecOrphan: a process with the executable of a front-end, in this case's directory, holding a
+// descriptor of a lock file (0 if none).  Called when every run of the case has ended.
+func (w *world) preExecOrphan() int {
+	ents, _ := os.ReadDir("/proc")
+	for _, e := range ents {
+		pid, err := strconv.Atoi(e.Name())
+		if err != nil {
+			continue
+		}
+		exe := exeOf(pid)
+		if exe != w.bins["drc"] && exe != w.bins["do-approve"] {
+			continue
+		}
+		if cwd, _ := os.Readlink(fmt.Sprintf("/proc/%d/cwd", pid)); !strings.HasPrefix(cwd, w.dir) {
+			continue
+		}
+		if holdsLockFd(pid) {
+			return pid
+		}
+	}
+	return 0
+}
+
+// modelRefuses: does the model of the unchanged code, run on that schedule, turn process k away?
+// Caller holds r.mu.
+func (r *runner) modelRefuses(specs, sched string, k int) bool {
+	ans := r.ask("run\t" + specs + "\t" + sched)
+	for _, kv := range strings.Split(ans, ";") {
+		if v, ok := strings.CutPrefix(kv, "procs="); ok {
+			l := strings.Split(v, ",")
+			return k < len(l) && strings.HasPrefix(l[k], "L")
+		}
+	}
+	return false
 }
 
 func holdsLockFd(pid int) bool {
@@ -1163,12 +1331,16 @@ func (r *runner) runCase(c c12Case) {
 		sched = append(sched, "S0")
 		next := 1
 		if c.Par {
+			before := w.quiescent()
 			p := w.start(cx.Invs[1], -1, 0)
 			if !p.wait(long) {
 				hung(p)
 				return
 			}
 			r.checkLoser(c, w, p)
+			if d := diffSnap(before, w.snapshot()); len(d) > 0 {
+				r.fail("loser_wrote_files", fmt.Sprintf("the losing run changed %v while the holder was parked", d), c, nil)
+			}
 			sched = append(sched, "R1")
 			next = 2
 		}
@@ -1191,10 +1363,19 @@ func (r *runner) runCase(c c12Case) {
 		// the child it forks for its session stays between fork and exec for a while; SIGKILL of the
 		// holder in that window; Invs[1] right after (no run exists any more); Invs[2] after the
 		// child's exec.
-		w.wrap = []string{"strace", "-f", "-o", "/dev/null", "-e", "trace=execve", "-e", "inject=execve:delay_enter=1500000"}
-		h := w.start(cx.Invs[0], -1, 0)
-		w.wrap = nil
-		parent, child := w.forkWindow(h, 6*time.Second)
+		var h *proc
+		parent, child := 0, 0
+		for try := 0; try < 3 && parent == 0; try++ { // (no verdict exists yet: trying again replaces nothing)
+			if h != nil {
+				w.kill(h)
+				w.procs = w.procs[:0]
+				os.Remove(w.eventLog)
+			}
+			w.wrap = []string{"strace", "-f", "-o", "/dev/null", "-e", "trace=execve", "-e", "inject=execve:delay_enter=1500000"}
+			h = w.start(cx.Invs[0], -1, 0)
+			w.wrap = nil
+			parent, child = w.forkWindow(h, 6*time.Second)
+		}
 		if parent == 0 {
 			// no strace, ptrace not permitted, or the window was missed: nothing observed, nothing claimed
 			w.kill(h)
@@ -1209,12 +1390,15 @@ func (r *runner) runCase(c c12Case) {
 		}
 		h.killed = true
 		sched = append(sched, "F0", "k0")
+		bothHeld := holdsLockFd(child) // (forkWindow saw both holding it; the parent is gone now)
+		before := w.snapshot()
 		c1 := w.start(cx.Invs[1], -1, 0)
 		if !c1.wait(long) {
 			hung(c1)
 			return
 		}
-		stillWindow := exeOf(child) == w.bins[cx.Invs[0].Front]
+		after := w.snapshot()
+		stillWindow := exeOf(child) == w.bins[cx.Invs[0].Front] && holdsLockFd(child)
 		lost1 := c1.exit != 0 && strings.Contains(c1.stderr.String(), "Approve in progress")
 		if stillWindow || lost1 {
 			sched = append(sched, "R1", "c0")
@@ -1225,10 +1409,25 @@ func (r *runner) runCase(c c12Case) {
 			r.res.Count("fork-window:closed-before-contender")
 			r.mu.Unlock()
 		}
-		if c1.exit != 0 && strings.Contains(c1.stderr.String(), "Approve in progress") {
+		if lost1 {
+			// the finding is pinned to this schedule: observed = the dead holder's child, not yet exec'ed,
+			// holds a descriptor of the lock file before (and after) the refused run; predicted = the model
+			// of the unchanged code, run on F0,k0,R1, turns run 1 away
+			window := "closed-during-run"
+			if stillWindow {
+				window = "open-throughout"
+			}
+			r.mu.Lock()
+			pred := r.modelRefuses(specsOf([]inv{cx.Invs[0], cx.Invs[1]}), "F0,k0,R1", 1)
+			r.mu.Unlock()
 			r.fail("lock_outlives_killed_holder_until_child_execs",
 				fmt.Sprintf("the holder (pid %d) was SIGKILLed while its child (pid %d) was between fork and exec; run 1 (%s), started when no run existed any more, was turned away: %q",
-					parent, child, c1.v, c1.stderr.String()), c, map[string]any{"window_still_open_after_run": stillWindow})
+					parent, child, c1.v, c1.stderr.String()), c,
+				map[string]any{"child_pre_exec_holds_lock_fd": bothHeld, "window": window, "model_schedule": "F0,k0,R1", "model_predicts": pred})
+			r.checkLoser(c, w, c1) // message, exit status, no session, and: at once
+			if d := diffSnap(before, after); len(d) > 0 {
+				r.fail("loser_wrote_files", fmt.Sprintf("the refused run changed %v", d), c, nil)
+			}
 		}
 		// wait for the child's exec: the orphaned simulator announces itself (and sees EOF)
 		for i := 0; i < 5000; i++ {
@@ -1298,28 +1497,27 @@ func (r *runner) runCase(c c12Case) {
 			}
 		}
 		// after everything is over the lock must be free again
+		// F-C12a can strike here by chance: every run of the case is over, so a process that still has
+		// the executable of a front-end, lives in this case's directory and holds a descriptor of a lock
+		// file can only be the not yet exec'ed child of the killed holder.  Looked for BEFORE the
+		// final run; the verdict on that run is never revised by a re-run.
+		orphan := 0
+		if c.Kind == "timed-kill" {
+			orphan = w.preExecOrphan()
+		}
 		f := w.start(cx.Invs[0], -1, 0)
 		if !f.wait(long) {
 			hung(f)
 			return
 		}
-		if f.exit != 0 && c.Kind == "timed-kill" && strings.Contains(f.stderr.String(), "Approve in progress") {
-			// F-C12a: the killed holder may have left a child between fork and exec, which holds a copy
-			// of the lock descriptor until it execs; the lock must be free shortly afterwards
-			for try := 0; try < 60 && f.exit != 0; try++ {
-				time.Sleep(50 * time.Millisecond)
-				f = w.start(cx.Invs[0], -1, 0)
-				if !f.wait(long) {
-					hung(f)
-					return
-				}
-			}
-			if f.exit == 0 {
-				r.fail("lock_outlives_killed_holder_until_child_execs",
-					"after SIGKILL of the holder a run was turned away although no run existed; later the lock was free; "+w.timeline(), c, nil)
-			}
-		}
-		if f.exit != 0 {
+		if f.exit != 0 && orphan != 0 && strings.Contains(f.stderr.String(), "Approve in progress") {
+			r.mu.Lock()
+			pred := r.modelRefuses(specsOf([]inv{cx.Invs[0], cx.Invs[0]}), "F0,k0,R1", 1)
+			r.mu.Unlock()
+			r.fail("lock_outlives_killed_holder_until_child_execs",
+				fmt.Sprintf("after SIGKILL of the holder its child (pid %d), not yet exec'ed, held the lock descriptor; the run started then was turned away although no run existed; %s", orphan, w.timeline()), c,
+				map[string]any{"child_pre_exec_holds_lock_fd": true, "window": "orphan-seen-before-run", "model_schedule": "F0,k0,R1", "model_predicts": pred})
+		} else if f.exit != 0 {
 			r.fail("lock_not_released_after_death", fmt.Sprintf("run %d (%s) after all others ended: exit=%d stderr=%q; %s", f.id, f.v, f.exit, f.stderr.String(), w.timeline()), c, nil)
 		}
 	}
@@ -1516,7 +1714,7 @@ func run(ctx *Ctx) *Result {
 	}
 	defer os.RemoveAll(tmp)
 	self, _ := os.Executable()
-	r := &runner{ctx: ctx, res: res, tmp: tmp, self: self, bins: map[string]string{}, reachCache: map[string]string{}, pending: map[uint64][]pendingFail{}}
+	r := &runner{ctx: ctx, res: res, tmp: tmp, self: self, bins: map[string]string{}, reachCache: map[string]string{}, pending: map[uint64][]pendingFail{}, known: loadKnown(ctx.Verif)}
 	for _, n := range []string{"drc", "do-approve"} {
 		b, err := build(ctx.Repo, tmp, n)
 		if err != nil {
@@ -1702,6 +1900,9 @@ func run(ctx *Ctx) *Result {
 	)
 	// F-C12a, directed (needs strace): holder killed while its child is between fork and exec
 	nfw := ctx.N(2, 6)
+	if v, err := strconv.Atoi(os.Getenv("VH_C12_FORKWINDOW")); err == nil && v > 0 {
+		nfw = v // (experiments: many known failures must not stop the remaining cases)
+	}
 	for i := 0; i < nfw; i++ {
 		hk := []inv{dv("do-approve", "approve", "dev", ".", false), dv("drc", "compare", "policies/current/code/dev", ".", true)}[i%2]
 		cases = append(cases, c12Case{Kind: "fork-window", Seed: uint64(4000 + i), Invs: []inv{hk,
@@ -1769,5 +1970,25 @@ func run(ctx *Ctx) *Result {
 	}
 	close(ch)
 	wg.Wait()
+	// floors and ceilings on what was left unjudged
+	nCases := len(cases)
+	if r.discarded > 5 && r.discarded*100 > 3*nCases {
+		res.Disagree("c12 cases discarded for environment trouble", nil, fmt.Sprintf("%d of %d", r.discarded, nCases), "at most 3 %")
+	}
+	if len(r.loserDur) > 0 {
+		sort.Slice(r.loserDur, func(i, j int) bool { return r.loserDur[i] < r.loserDur[j] })
+		med := r.loserDur[len(r.loserDur)/2]
+		res.Count(fmt.Sprintf("loser-duration-median-ms:%d", med.Milliseconds()))
+		if med > 200*time.Millisecond {
+			res.Disagree("c12 losers fail immediately (median duration of a losing run)", nil, med.String(), "at most 200ms")
+		}
+	}
+	if res.Distribution["loser-timed"] < 30 && r.nFail < 15 {
+		res.Disagree("c12 losers timed", nil, fmt.Sprint(res.Distribution["loser-timed"]), "at least 30")
+	}
+	if _, err := exec.LookPath("strace"); err == nil && r.nFail < 15 &&
+		res.Distribution["fork-window:not-reproduced"] >= nfw {
+		res.Disagree("c12 fork-window reproduction", nil, "not reproduced in any of the directed cases although strace is installed", "at least one")
+	}
 	return res
 }
